@@ -49,11 +49,65 @@ FRAGS = [b"syntax", b"=", b"\"proto3\"", b";", b"message", b"Foo", b"{", b"}", b
          b"\"\\u-123\"", b"\"\\x\xff\xff\"", b"\"\\U0010FFFF\"", b"\"\\ud800\"", b"'\\''", b"\"\\\"\"", b"\"\\", b"\"\\x", b"\"\\1", b"\"\\12", b"\"\\u12\"", b"\"\\?\\a\\b\\f\\v\\r\\t\""]
 
 
+TEMPLATES = [
+    [b"syntax", b"=", b"\"proto3\"", b";", b"package", b"a", b".", b"b", b";", b"message", b"M", b"{", b"int32", b"f", b"=", b"1", b";", b"repeated", b"string", b"g", b"=", b"2",
+     b"[", b"json_name", b"=", b"'x\\n'", b"]", b";", b"}"],
+    [b"syntax", b"=", b"\"proto2\"", b";", b"message", b"M", b"{", b"optional", b"bytes", b"b", b"=", b"1", b"[", b"default", b"=", b"\"\\x00\\377\\u00e9\"", b"]", b";",
+     b"extensions", b"100", b"to", b"max", b";", b"optional", b"double", b"d", b"=", b"2", b"[", b"default", b"=", b"-", b"1.5e3", b"]", b";", b"}", b"extend", b"M", b"{",
+     b"optional", b"int32", b"e", b"=", b"0x64", b";", b"}"],
+    [b"syntax", b"=", b"\"proto3\"", b";", b"enum", b"E", b"{", b"A", b"=", b"0", b";", b"B", b"=", b"01", b";", b"}", b"service", b"S", b"{", b"rpc", b"R", b"(", b"M", b")",
+     b"returns", b"(", b"stream", b"M", b")", b";", b"}", b"message", b"M", b"{", b"map", b"<", b"string", b",", b"E", b">", b"m", b"=", b"1", b";", b"oneof", b"o", b"{",
+     b"int32", b"x", b"=", b"2", b";", b"}", b"}"],
+    [b"edition", b"=", b"\"2023\"", b";", b"option", b"features", b".", b"field_presence", b"=", b"IMPLICIT", b";", b"message", b"M", b"{", b"int32", b"f", b"=", b"1", b";", b"}"],
+]
+
+
+
+def token_mutants(ctx, n_random):
+    """grammar-aware near-valid inputs: the token templates with single tokens (and adjacent pairs / triples, e.g. the
+    `= 1` of a field) deleted, duplicated or swapped; exhaustive for deletions, random for the rest"""
+    rng = ctx.rng
+    out = []
+    for toks in TEMPLATES:
+        n = len(toks)
+        for width in (1, 2, 3):
+            for i in range(0, n - width + 1):
+                out.append(b" ".join(toks[:i] + toks[i + width:]))
+        for i in range(n):
+            out.append(b" ".join(toks[:i] + [toks[i], toks[i]] + toks[i + 1:]))
+        for i in range(n - 1):
+            t = list(toks); t[i], t[i + 1] = t[i + 1], t[i]
+            out.append(b" ".join(t))
+    # drop the `= <number>` of several declarations at once (all of them, and random subsets)
+    for toks in TEMPLATES:
+        pairs = [i for i in range(len(toks) - 1) if toks[i] == b"=" and toks[i + 1][:1].isdigit()]
+        for rep in range(24):
+            drop = set(pairs) if rep == 0 else {i for i in pairs if rng.chance(1, 2)}
+            t = [x for i, x in enumerate(toks) if i not in drop and (i - 1) not in drop]
+            out.append(b" ".join(t))
+    for _ in range(n_random):
+        t = list(rng.choice(TEMPLATES))
+        for _ in range(rng.range(1, 3)):
+            k = rng.below(4)
+            i = rng.below(len(t))
+            if k == 0 and len(t) > 2:
+                del t[i:i + rng.range(1, 3)]
+            elif k == 1:
+                t.insert(i, rng.choice(t))
+            elif k == 2:
+                t[i] = rng.choice(rng.choice(TEMPLATES))
+            else:
+                j = rng.below(len(t)); t[i], t[j] = t[j], t[i]
+        out.append(b" ".join(t))
+    return out
+
+
 def gen_inputs(ctx, n_random, n_soup, n_mutants):
     rng = ctx.rng
     out = []
     for f in FRAGS:
         out.append(f)
+    out += token_mutants(ctx, n_mutants)
     for _ in range(n_random):
         out.append(rng.bytes(rng.range(0, 24)))
     for _ in range(n_soup):
